@@ -187,3 +187,81 @@ pub fn value_api_sweep(ctx: &Ctx, tier: Tier) -> (u64, u64) {
     ctx.assume("value-API sweep: every string of up to 3 (quick) / 4 (thorough) characters over 20 characters incl. 2-, 3- and 4-byte UTF-8");
     (n_texts, calls)
 }
+
+/// The specification crate's functions with every argument value that their documentation does not exclude: all u32 with
+/// at most two bits set plus complements and extremes as version masks and version values, every element type with its
+/// own listed names and index lists. (Index lists other than those returned by `find_sub_element` are outside the
+/// documented precondition of the `get_sub_element_*` functions and are not passed.)
+pub fn spec_api_sweep(ctx: &Ctx) -> u64 {
+    use autosar_data_specification::*;
+    let mut masks: Vec<u32> = vec![0, u32::MAX, u32::MAX - 1, 0x7fff_ffff, 0x8000_0000, 0x001f_ffff, 0x0020_0000, 0x003f_ffff];
+    for i in 0..32 {
+        masks.push(1 << i);
+        masks.push(!(1u32 << i));
+        for j in (i + 1)..32 {
+            masks.push((1 << i) | (1 << j));
+        }
+    }
+    let mut n = 0u64;
+    let mut call = |what: &str, arg: String, f: &mut dyn FnMut()| {
+        n += 1;
+        if let Err(msg) = guarded(|| f()) {
+            ctx.violation(format!("panic|spec-api|{what}|{}", last_panic_loc()), json!({"kind": "spec-api", "call": what, "argument": arg, "msg": msg}));
+        }
+    };
+    for m in &masks {
+        call("expand_version_mask", format!("{m:#x}"), &mut || {
+            let v = expand_version_mask(*m);
+            // every returned version is in the mask
+            for ver in v {
+                assert!(ver as u32 & *m != 0, "verif: expand_version_mask returned a version outside the mask");
+            }
+        });
+        call("AutosarVersion::from_val", format!("{m:#x}"), &mut || {
+            let _ = AutosarVersion::from_val(*m);
+        });
+        call("AutosarVersion::compatible", format!("{m:#x}"), &mut || {
+            for v in crate::common::specgraph::VERSIONS.iter() {
+                let _ = v.compatible(*m);
+            }
+        });
+    }
+    let types: Vec<ElementType> = ElementType::verif_all().collect();
+    let some_items = [EnumItem::CanCluster, EnumItem::Abstract, EnumItem::En];
+    let few_masks = [0u32, u32::MAX, 0x8000_0000, 0x0020_0000, 1];
+    let m: u64 = types
+        .par_iter()
+        .map(|t| {
+            let mut k = 0u64;
+            let r = guarded(|| {
+                for (name, st, mask, _) in t.sub_element_spec_iter() {
+                    for fm in few_masks.iter().chain([mask].iter()) {
+                        k += 1;
+                        if let Some((_, idx)) = t.find_sub_element(name, *fm) {
+                            let _ = (t.get_sub_element_version_mask(&idx), t.get_sub_element_multiplicity(&idx), t.get_sub_element_container_mode(&idx), t.find_common_group(&idx, &idx).content_mode());
+                        }
+                    }
+                    let _ = (st.is_named(), st.is_ref(), st.content_mode(), st.chardata_spec().is_some(), st.is_ordered(), st.splittable(), st.std_restriction());
+                    let _ = t.reference_dest_value(&st);
+                }
+                for (an, _, _) in t.attribute_spec_iter() {
+                    k += 1;
+                    let _ = t.find_attribute_spec(an);
+                }
+                for v in crate::common::specgraph::VERSIONS.iter() {
+                    let _ = (t.is_named_in_version(*v), t.splittable_in(*v));
+                }
+                for it in some_items {
+                    let _ = t.verify_reference_dest(it);
+                }
+                let _ = format!("{t:?}");
+            });
+            if let Err(msg) = r {
+                ctx.violation(format!("panic|spec-api|element-type-functions|{}", last_panic_loc()), json!({"kind": "spec-api", "type": format!("{t:?}"), "msg": msg}));
+            }
+            k
+        })
+        .sum();
+    ctx.count("spec_api_calls", n + m);
+    n + m
+}
